@@ -331,6 +331,13 @@ func (r *PaginatedResourceRepository[ResourceType, OptionsType]) Paginate(
 	)
 	switch v := any(paginationQuery).(type) {
 	case OffsetPaginatedQuery[OptionsType]:
+		// the sort column of an offset cursor comes from the client and is rendered into ORDER BY
+		if v.Column == "" {
+			v.Column = r.defaultPaginationColumn
+		}
+		if _, field := r.resourceHandler.Schema().GetFieldByNameOrAlias(v.Column); field == nil {
+			return nil, NewErrInvalidQuery("invalid property '%s' for pagination", v.Column)
+		}
 		if v.Order == nil {
 			v.Order = pointer.For(r.defaultOrder)
 		}
